@@ -43,14 +43,17 @@ def run(ctx):
         phi, sw = float(rng.uniform(0.02, 0.4)), float(rng.uniform(0, 0.3))
         p = rng.uniform(P[1], P[-2], 10)
         so = rng.uniform(0, 1 - sw, 10)
+        # ... half of them with a gas saturation that is small but not zero (1e-9 .. 1e-4: the first gas coming out of solution): the
+        # free-gas term is small there, not absent
+        so[:5] = 1 - sw - np.array([1e-9, 1e-7, 3e-6, 1e-5, 1e-4]) * float(rng.uniform(0.3, 1.0))
         inp = dict(table=kind, rows=len(P), phi=phi, Sw=sw, reference_densities=rho, with_vaporised_oil=bool(k % 8 < 4))
         cp = np.asarray(compressibility_combined_func(p, so, phi, sw, pvt), float)
         want = doc_storage(p + 0.5, so, sw, phi, pvt) - doc_storage(p - 0.5, so, sw, phi, pvt)
         scale = np.abs(doc_storage(p, so, sw, phi, pvt)).max()
         ev += 1
-        if not np.allclose(cp, want, rtol=1e-9, atol=1e-13 * scale):
+        if not np.allclose(cp, want, rtol=1e-9, atol=1e-13 * scale) or (kind != "constant" and not np.allclose(cp[:5], want[:5], rtol=2e-9, atol=0)):
             bad("multiphase compressibility is not the pressure difference (derivative) of the documented stored mass at fixed saturation", inp,
-                dict(got=[float(x) for x in cp[:3]], finite_difference_of_storage=[float(x) for x in want[:3]]))
+                dict(got=[float(x) for x in cp[:5]], finite_difference_of_storage=[float(x) for x in want[:5]], So=[float(x) for x in so[:5]], Sg=[float(x) for x in (1 - so - sw)[:5]]))
         if kind == "constant" and np.abs(cp).max() > 1e-12 * scale:
             bad("multiphase compressibility does not vanish for pressure-independent tables", inp, float(np.abs(cp).max()))
         cp2 = np.asarray(compressibility_combined_func(p, so, 2.5 * phi, sw, pvt), float)
